@@ -28,7 +28,7 @@ SCHEDS = ["naive", "priority", "priority", "priority-pool", "overbook", "starter
 
 
 def plan(tier):
-    return [{"kind": "hypothesis", "examples": 2500 if tier == "quick" else 80000}]
+    return [{"kind": "hypothesis", "examples": 2500 if tier == "quick" else 30000}]
 
 
 def strategy(tier):
